@@ -23,8 +23,12 @@ const TIMEOUT: Duration = Duration::from_secs(60);
 ///
 /// We're using a custom switch very similar to what [mockall_double::double]
 /// is doing.
-#[cfg(not(test))]
+#[cfg(all(not(test), not(feature = "zvt_verif")))]
 type InnerTcpStream = tokio::net::TcpStream;
+
+/// In-memory I/O for the verification harness.
+#[cfg(all(not(test), feature = "zvt_verif"))]
+type InnerTcpStream = crate::verif_hook::VerifTcpStream;
 
 /// Mocked I/O for unit tests.
 #[cfg(test)]
@@ -128,6 +132,12 @@ impl TcpStream {
     /// Returns the config used to construct the stream.
     pub fn config(&self) -> &Config {
         &self.config
+    }
+
+    /// Tells if a connection is currently held (verification only).
+    #[cfg(feature = "zvt_verif")]
+    pub fn verif_connected(&self) -> bool {
+        self.inner.is_some()
     }
 }
 
